@@ -1244,8 +1244,10 @@ def solve_ivp(fun, t_span, y0, method='RK45', t_eval=None, dense_output=False,
         t_res = ode_system.t
         y_res = D.ar_numpy.transpose(ode_system.y, axes=[*range(1, len(ode_system.y.shape)), 0])
     else:
-        t_eval = D.ar_numpy.sort(t_eval)
-        if t_eval[0] < t_span[0] or t_eval[-1] > t_span[1]:
+        # order t_eval along the direction of t_span (ascending for an increasing span)
+        __dir = D.ar_numpy.sign(t_span[1] - t_span[0])
+        t_eval = __dir * D.ar_numpy.sort(__dir * D.ar_numpy.asarray(t_eval))
+        if __dir * t_eval[0] < __dir * t_span[0] or __dir * t_eval[-1] > __dir * t_span[1]:
             raise ValueError(f"Expected `t_eval` to be in the range [{t_span[0]}, {t_span[1]}]")
         t_res = []
         y_res = []
